@@ -122,6 +122,10 @@ Definition H_post_sm_add := Eval vm_compute in handlers_of "post_submodel" "self
 Definition H_post_cd_add := Eval vm_compute in handlers_of "post_concept_description" "self.object_store.add".
 Definition H_post_elem_add := Eval vm_compute in handlers_of "post_submodel_submodel_elements_id_short_path" "parent.add_referable".
 Definition H_att_write := Eval vm_compute in handlers_of "get_submodel_submodel_element_attachment" "self.file_store.write_file".
+Definition H_att_name := Eval vm_compute in handlers_of "put_submodel_submodel_element_attachment" "model.File".
+Definition H_att_resp := Eval vm_compute in handlers_of "get_submodel_submodel_element_attachment" "Response".
+Definition H_bind := Eval vm_compute in handlers_of "handle_request" "self.url_map.bind_to_environ".
+Definition H_put_elem_update := Eval vm_compute in handlers_of "put_submodel_submodel_elements_id_short_path" "submodel_element.update_from".
 Definition H_att_delete := Eval vm_compute in handlers_of "delete_submodel_submodel_element_attachment" "self.file_store.delete_file".
 Definition H_delete_aas_remove := Eval vm_compute in handlers_of "delete_aas" "self.object_store.remove".
 Definition H_delete_sm_remove := Eval vm_compute in handlers_of "delete_submodel" "self.object_store.remove".
@@ -136,6 +140,7 @@ Definition C_commit (fn : string) : bool := commits fn.
 (* status codes of werkzeug.exceptions (hand-written, tied by the correspondence) *)
 Definition http_code (cls : string) : Z :=
   if String.eqb cls "BadRequest" then 400 else
+  if String.eqb cls "BadHost" then 400 else
   if String.eqb cls "NotFound" then 404 else
   if String.eqb cls "MethodNotAllowed" then 405 else
   if String.eqb cls "NotAcceptable" then 406 else
@@ -231,12 +236,14 @@ Inductive body :=
 | BNoCtype                       (* mimetype not among valid_content_types *)
 | BBad                           (* JSON/XML that no expected class accepts *)
 | BVal (xml : bool) (v : value)  (* well-formed document describing v *)
-| BUpload (fname : option string) (file : option (nat * nat)).  (* multipart form: fileName, (mimetype, bytes) *)
+| BUpload (fname : option string) (fname_ok : bool) (file : option (nat * nat)).
+  (* multipart form: fileName, whether it satisfies the PathType constraints, (mimetype, bytes) *)
 
 Record request := {
   r_rule : string; r_meth : meth; r_accept : accept;
   r_aas : idarg; r_sm : idarg; r_cd : idarg; r_qt : idarg; r_path : patharg;
-  r_query : query; r_body : body }.
+  r_query : query; r_body : body;
+  r_badhost : bool   (* the Host header is no valid host name: bind_to_environ raises BadHost *) }.
 
 Inductive loc :=
 | LShell (i : ident) | LSm (i : ident) | LCd (i : ident)
@@ -433,6 +440,20 @@ Fixpoint update_elem (new old : elem) {struct new} : elem :=
     Elem m ids' tok' (merge_quals q q') ct' v' (kept ++ added)
   end.
 
+(* update_from on an element that sits in its parent's children under key k: another idShort goes through
+   the id_short setter first, which refuses a missing (AASd-117) or taken (AASd-022) idShort before anything
+   changed and otherwise re-keys the element (discard + add: it moves to the end) *)
+Definition rekey_update (pch : children) (k : name) (e e' : elem) : result children :=
+  if okey_eqb (e_ids e') (Some k)
+  then Ok (creplace k (update_elem e' e) pch)
+  else match e_ids e' with
+       | None => Exc (EConstraint 117)
+       | Some k' => match clookup k' pch with
+                    | Some _ => Exc (EConstraint 22)
+                    | None => Ok (cremove k pch ++ [(Some k', update_elem e' e)])
+                    end
+       end.
+
 (* the same merge for the submodel_element set of a Submodel *)
 Definition update_children (ch ch' : children) : children :=
   e_ch (update_elem (Elem MColl None 0 [] 0%nat ANone ch') (Elem MColl None 0 [] 0%nat ANone ch)).
@@ -463,7 +484,7 @@ Definition body_spec (fn : string) : string * string :=
 Definition request_body (fn : string) (r : request) : result value :=
   let '(cls, mode) := body_spec fn in
   match r_body r with
-  | BNoCtype | BUpload _ _ => http "UnsupportedMediaType"
+  | BNoCtype | BUpload _ _ _ => http "UnsupportedMediaType"
   | BBad =>
     if mem_s cls constructables
     then guard H_json_list (Exc EValue) (Exc EValue)
@@ -594,6 +615,13 @@ Definition resolve_sm (s : state) (i : ident) : result submodel :=
 Definition get_sm_ref (a : shell) (i : ident) : result ident :=
   if zmem i (sh_refs a) then Ok i else http "NotFound".
 
+(* content-type tokens >= 2 stand for ContentType strings with a line break: accepted by the model's
+   constraint, refused by werkzeug as a header value (ValueError in Response(...)) *)
+Definition sendable (ct : nat) : bool := Nat.ltb ct 2.
+Definition send_file (s : state) (r : request) (ct c : nat) : result (state * response) :=
+  if sendable ct
+  then Ok (s, {| status := 200; rtype := r_accept r; location := None; pay := PFile ct c |})
+  else guard H_att_resp (Exc EValue) (Exc EValue).
 Definition starts_with_slash (p : string) : bool :=
   match p with String c _ => Ascii.eqb c "/"%char | EmptyString => false end.
 
@@ -769,7 +797,17 @@ Definition handler (ep : endpoint) (s : state) (r : request) : HR :=
     | VElem e' =>
       if raises fn "BadRequest" && negb (mt_eqb (e_mt e) (e_mt e')) then http "BadRequest" else
       (* without the class check of the handler update_from would stop half-way (not modelled) *)
-      ok (edit_sm s (the_id (r_sm r)) sm (the_path r) (fun _ => Keep (update_elem e' e))) (respond fn 0 r None None)
+      let pp := removelast (the_path r) in
+      do pch <- (match pp with
+                 | [] => Ok (sm_ch sm)
+                 | _ => do pe <- get_nested sm pp; Ok (e_ch pe)
+                 end);
+      do ch' <- guard H_put_elem_update (rekey_update pch (last (the_path r) 0) e e') (Ok pch);
+      let s' := match pp with
+                | [] => put_sm_back s (the_id (r_sm r)) sm ch'
+                | _ => edit_sm s (the_id (r_sm r)) sm pp (fun x => Keep (set_ch x ch'))
+                end in
+      ok s' (respond fn 0 r None None)
     | _ => Exc EAttr
     end
   | ep_delete_submodel_submodel_elements_id_short_path =>
@@ -798,14 +836,13 @@ Definition handler (ep : endpoint) (s : state) (r : request) : HR :=
     do sm <- get_sm s (the_id (r_sm r));
     do e <- get_nested sm (the_path r);
     match e_mt e, e_val e with
-    | MBlob, AData c | MFile, AData c =>
-      ok s {| status := 200; rtype := r_accept r; location := None; pay := PFile (e_ctype e) c |}
+    | MBlob, AData c | MFile, AData c => send_file s r (e_ctype e) c
     | MBlob, _ => http "NotFound"
     | MFile, ANone => http "NotFound"
     | MFile, APath p =>
       if negb (starts_with_slash p) then http "BadRequest" else
       match Files.write_file (st_files s) p with
-      | OData c => ok s {| status := 200; rtype := r_accept r; location := None; pay := PFile (e_ctype e) c |}
+      | OData c => send_file s r (e_ctype e) c
       | _ => guard H_att_write (Exc EKey) (Exc EKey)
       end
     | _, _ => http "BadRequest"
@@ -816,8 +853,9 @@ Definition handler (ep : endpoint) (s : state) (r : request) : HR :=
     match e_mt e, e_val e with
     | MFile, ANone =>
       match r_body r with
-      | BUpload (Some nm) f =>
+      | BUpload (Some nm) nm_ok f =>
         if negb (starts_with_slash nm) then http "BadRequest" else
+        if negb nm_ok then guard H_att_name (Exc EValue) (Exc EValue) else      (* model.File(..., value=fileName) *)
         match f with
         | None => http "BadRequest"
         | Some (mime, c) =>
@@ -945,6 +983,12 @@ Definition handle (s : state) (r : request) : state * response :=
   match r_accept r with
   | AccNone => (s, {| status := 406; rtype := AccNone; location := None; pay := PPlain |})
   | _ =>
+    if r_badhost r
+    then match catch H_bind (EHttp "BadHost") with
+         | Swallowed => (s, error_response r (EHttp "BadHost"))
+         | Propagate e => (s, {| status := 500; rtype := r_accept r; location := None; pay := PCrash e |})
+         end
+    else
     let res : HR :=
       match find_route routes (r_rule r) (r_meth r) false with
       | RNotFound => http "NotFound"
